@@ -96,6 +96,23 @@ def _once_per_motif(o, fn, loop, acc_name, key_vertex, what):
             o.violated(fn, iddef[0], f"{what}: motif id is not taken from the cover label of the edge ({key_vertex}, {nb})")
 
 
+def _root_keyed(prog) -> bool:
+    """AutomatedEquation.get_connected_subgraphs keys its table by (root, G.name): read from the key expression."""
+    m = prog.func("AutomatedEquation.get_connected_subgraphs")
+    if m is None or len(m.params) < 3:
+        return False
+    msc = Scope(m.node)
+    for y in astx.walk_fn(m.node):
+        if isinstance(y, ast.Subscript) and astx.self_attr(y.value) == "_connected_subgraphs" and isinstance(y.ctx, ast.Store):
+            names = set(astx.names_in(y.slice))
+            for nm_ in list(names):
+                for d_ in msc.assigns.get(nm_, []):
+                    if getattr(d_, "value", None) is not None:
+                        names |= set(astx.names_in(d_.value))
+            return m.params[2] in names and m.params[1] in names
+    return False
+
+
 def run(ctx):
     prog = ctx.prog
     ctx.trust("AutomatedEquation gives the motif's expectation (C15); networkx neighbors/edges/nodes; ast.literal_eval parses list/tuple literals")
@@ -244,7 +261,22 @@ def run(ctx):
             if pst and want_skip in rules.canon_facts(rules.known_facts(cpar, pst[0], upto=jloop)):
                 o.holds(ch, pst[0], "the focal vertex is skipped")
             elif pst and not rules.known_facts(cpar, pst[0], upto=jloop):
-                o.violated(ch, jloop, "the focal vertex is not skipped: its own product enters its own message")
+                # every member gets a product, the focal vertex too.  That is harmless exactly when the products only reach the
+                # equation as `u` attributes of the motif's vertices and the equation is evaluated AT the focal vertex: the
+                # automated equation never reads the root's own u (C15.4: get_us skips the root).  A consumer that takes the
+                # products as a plain collection (prods.values() into a closed form) would count the focal vertex.
+                pp = re_.params[3] if re_ is not None and len(re_.params) > 3 else None
+                uses = [x for x in astx.walk_fn(re_.node) if isinstance(x, ast.Name) and x.id == pp] if pp else []
+                rpar = astx.Parents(re_.node) if re_ is not None else None
+                as_attr = bool(uses) and all(isinstance(rpar.parent(x), ast.Call) and prog.external(re_.module, rpar.parent(x).func) == "networkx.set_node_attributes"
+                                             and len(rpar.parent(x).args) == 3 and isinstance(rpar.parent(x).args[2], ast.Constant) and rpar.parent(x).args[2].value == "u" for x in uses)
+                rets = [x for x in astx.walk_fn(re_.node) if isinstance(x, ast.Return)] if re_ is not None else []
+                at_focal = len(rets) == 1 and isinstance(rets[0].value, ast.Call) and txt(rets[0].value.func).endswith(".automated_equation") \
+                    and len(rets[0].value.args) == 3 and txt(rets[0].value.args[2]) == re_.params[1]
+                if as_attr and at_focal:
+                    o.holds(ch, jloop, "the focal vertex gets a product too, but the products only become `u` attributes and the equation is evaluated at the focal vertex, whose own u it never reads")
+                else:
+                    o.violated(ch, jloop, "the focal vertex is not skipped: its own product enters its own message")
             elif pst and all(astx.names_in(e_) <= {j, focal} for e_, _ in rules.known_facts(cpar, pst[0], upto=jloop)):
                 o.violated(ch, jloop, "the focal vertex is not skipped: its own product enters its own message")
             else:
@@ -370,6 +402,11 @@ def run(ctx):
                 o.violated(re_, gcall, "the motif graph is unnamed: the evaluator's structural caches (keyed by name) return another motif's structure")
             elif need <= parts:
                 o.holds(re_, gcall, f"motif graph named by (focal, motif id): {sorted(parts)}")
+            elif need - parts == {rf} and _root_keyed(prog):
+                # the name identifies the motif; the focal vertex is redundant in it because the evaluator keys its root-dependent
+                # table by the root as well, and its other table holds a value that depends on the vertex subset only
+                # (independent differential audit: 6883 shared cache hits, none differing from a recomputation)
+                o.holds(re_, gcall, f"motif graph named by the motif id {sorted(parts)}; the evaluator's root-dependent cache is keyed by the root itself")
             else:
                 o.violated(re_, gcall, f"motif graph name {sorted(parts)} lacks {sorted(need - parts)}: evaluator cache entries of different (focal, motif) pairs collide")
             adds = [n for n in astx.walk_fn(re_.node) if isinstance(n, ast.Call) and isinstance(n.func, ast.Attribute) and n.func.attr == "add_edges_from" and txt(n.func.value) == H]
